@@ -18,7 +18,7 @@ LEVEL_NOTE = ("Trusted: Lean kernel, standard axioms; hand-written model tied by
               "LeafPlain hypothesis for CPython printers. Aliasing / mutation clauses: oracle only.")
 TECHNIQUE = "Lean 4 closure theorem (induction over the model of all marshallers); correspondence with exact-class comparison; identity/aliasing oracle on the real objects"
 DESIGN_REF = "DESIGN.md §5 C06"
-MODULES = ["TypelibModel.Props.Dispatch"]
+MODULES = ["TypelibModel.Props.C06", "TypelibModel.Props.Dispatch"]
 TABLES = True
 RULE = ("fully annotated programs (no Any); valid values incl. subclass instances where the encoding allows (IntEnum members in "
         "int positions, str-mixin members in str positions); non-members for Literal types; non-trivial = composite annotation")
